@@ -73,3 +73,59 @@ From PSA Require Import Spec.P02.
 Theorem C09_pod_spec_resources_are_source : same_set Gen.Constants.gen_pod_spec_resources pss_pod_spec_resources = true.
 Proof. exact pod_spec_resources_are_source. Qed.
 Print Assumptions C09_pod_spec_resources_are_source.
+
+(** ---- composition with the standard (C02), for the shipped evaluator ---- *)
+From PSA Require Import Spec.PSS Proofs.EndToEnd Proofs.EndToEnd2 Proofs.C02_table.
+
+(** an evaluated controller request (no subresource, not exempt, template [p]),
+    shipped evaluator: allowed and without enforce-policy annotation whatever
+    the enforce level; it carries the warning / the audit annotation exactly
+    when the template does not comply with the standard (Spec/PSS.v) at the
+    warn / audit level:version.  No hypothesis on label errors or on the
+    short circuit (warn and audit both privileged) is needed. *)
+Theorem C09_end_to_end : forall c relax r w ls p ma mw,
+  let pol := spec_policy ls (cf_defaults c) in
+  let resp := fst (validate c (shipped_evaluator relax) r w) in
+  evaluated_object c r w = Some (ls, p, false) ->
+  api_valid p = true -> relaxed_for relax p = false ->
+  effective_minor (lv_version (audit pol)) = Some ma ->
+  effective_minor (lv_version (warn pol)) = Some mw ->
+  rs_allowed resp = true
+  /\ ann "enforce-policy" resp = None
+  /\ (rs_warnings resp = [] <-> compliant (lv_level (warn pol)) mw p = true)
+  /\ (compliant (lv_level (warn pol)) mw p = false ->
+      exists t, rs_warnings resp = [t] /\ contains (lv_string (warn pol)) t = true)
+  /\ (ann "audit-violations" resp = None <-> compliant (lv_level (audit pol)) ma p = true)
+  /\ (compliant (lv_level (audit pol)) ma p = false ->
+      exists t, ann "audit-violations" resp = Some t /\ contains (lv_string (audit pol)) t = true).
+Proof. exact C09_end_to_end_proof. Qed.
+Print Assumptions C09_end_to_end.
+
+(** the hypotheses are jointly satisfiable: a Deployment whose template
+    violates baseline:v1.19, namespace enforce=restricted, warn=audit=
+    baseline:v1.19: allowed, one warning, the audit annotation, no
+    enforce-policy annotation; the fixed template (baseline-compliant, not
+    restricted-compliant) is allowed without findings *)
+Example C09_end_to_end_in_scope :
+  let ls := [(enforce_level_label, "restricted"); (warn_level_label, "baseline"); (warn_version_label, "v1.19");
+             (audit_level_label, "baseline"); (audit_version_label, "v1.19")]%string in
+  let r := e2e_deploy_request example_pod in
+  let r' := e2e_deploy_request example_pod_fixed in
+  let w := e2e_world ls in
+  let pol := spec_policy ls (cf_defaults cex_cfg) in
+  let resp := fst (validate cex_cfg (shipped_evaluator false) r w) in
+  let resp' := fst (validate cex_cfg (shipped_evaluator false) r' w) in
+  evaluated_object cex_cfg r w = Some (ls, example_pod, false)
+  /\ evaluated_object cex_cfg r' w = Some (ls, example_pod_fixed, false)
+  /\ api_valid example_pod = true /\ relaxed_for false example_pod = false
+  /\ api_valid example_pod_fixed = true /\ relaxed_for false example_pod_fixed = false
+  /\ effective_minor (lv_version (audit pol)) = Some 19%N
+  /\ effective_minor (lv_version (warn pol)) = Some 19%N
+  /\ compliant (lv_level (warn pol)) 19 example_pod = false
+  /\ compliant (lv_level (audit pol)) 19 example_pod = false
+  /\ rs_allowed resp = true /\ List.length (rs_warnings resp) = 1
+  /\ is_some (ann "audit-violations" resp) = true /\ ann "enforce-policy" resp = None
+  /\ compliant (lv_level (warn pol)) 19 example_pod_fixed = true
+  /\ compliant (lv_level (enforce pol)) 32 example_pod_fixed = false
+  /\ rs_allowed resp' = true /\ rs_warnings resp' = [] /\ ann "audit-violations" resp' = None.
+Proof. vm_compute. repeat split. Qed.
